@@ -24,7 +24,13 @@ type scaseT struct {
 	Millis   int    // duration of the cycling phase
 	SetLevel bool   // the main goroutine also calls SetLevel now and then (same or lower level)
 	Derived  []bool // goroutine g logs through l.With("w", g) obtained per call
-	Seed     uint64
+	// Batch: the goroutines log through one logging.BatchLogger (small batch size, 1 ms ticker) and the
+	// main goroutine also calls its Flush; at the end it is closed before the final FlushBuffer
+	Batch bool `json:",omitempty"`
+	// Volume > 0: no concurrency at all — StartBuffering, Volume records from one goroutine, FlushBuffer
+	// (a start-up that logs a lot before the banner)
+	Volume int `json:",omitempty"`
+	Seed   uint64
 }
 
 type runT struct{ Start, Len int }
@@ -91,6 +97,23 @@ func runStress(k scaseT) (logged []int, runs [][]runT, cycles int) {
 	if err != nil {
 		panic(err)
 	}
+	if k.Volume > 0 {
+		l.StartBuffering()
+		c := &logT{Lvl: 2}
+		for n := 0; n < k.Volume; n++ {
+			c.Seq = n
+			l.Warn(msgOf(0, c))
+		}
+		_ = l.FlushBuffer()
+		out.mu.Lock()
+		data := append([]byte(nil), out.b.Bytes()...)
+		out.mu.Unlock()
+		return []int{k.Volume}, [][]runT{runsOf(seqsOf(data, 1)[0])}, 1
+	}
+	var bl *logging.BatchLogger
+	if k.Batch {
+		bl = logging.NewBatchLogger(l, 2+r.Intn(6), time.Millisecond)
+	}
 	var stop atomic.Bool
 	counts := make([]atomic.Int64, k.G)
 	var wg sync.WaitGroup
@@ -98,14 +121,17 @@ func runStress(k scaseT) (logged []int, runs [][]runT, cycles int) {
 		wg.Add(1)
 		go func(g int) {
 			defer wg.Done()
-			derived := g < len(k.Derived) && k.Derived[g]
+			derived := g < len(k.Derived) && k.Derived[g] && !k.Batch
 			c := &logT{Lvl: 2, Derived: derived}
 			for n := 0; !stop.Load() && n < 400000; n++ {
 				c.Seq = n
 				msg := msgOf(g, c)
-				if derived {
+				switch {
+				case bl != nil:
+					bl.Warn(msg)
+				case derived:
 					l.With("w", g).Log(context.Background(), slog.LevelWarn, msg)
-				} else {
+				default:
 					l.Warn(msg)
 				}
 				counts[g].Store(int64(n + 1))
@@ -130,6 +156,9 @@ func runStress(k scaseT) (logged []int, runs [][]runT, cycles int) {
 			_ = l.SetLevel([]slog.Level{slog.LevelInfo, slog.LevelDebug, slog.LevelWarn}[r.Intn(3)])
 		}
 		_ = l.FlushBuffer()
+		if bl != nil && r.Chance(1, 2) {
+			bl.Flush()
+		}
 		if k.SetLevel && r.Chance(1, 16) {
 			_ = l.SetLevel(slog.LevelInfo)
 		}
@@ -142,6 +171,9 @@ func runStress(k scaseT) (logged []int, runs [][]runT, cycles int) {
 	}
 	stop.Store(true)
 	wg.Wait()
+	if bl != nil {
+		bl.Close()
+	}
 	_ = l.FlushBuffer()
 	_ = l.Shutdown(context.Background())
 	out.mu.Lock()
@@ -184,12 +216,18 @@ func emitStress(id string, k scaseT, st *hx.Stats) string {
 		if k.SetLevel {
 			st.Count("stress_with_setlevel")
 		}
+		if k.Batch {
+			st.Count("stress_through_batchlogger")
+		}
+		if k.Volume > 0 {
+			st.Count("stress_volume")
+		}
 	}
 	return l.String() + hx.Comment(caseT{Z: &k})
 }
 
 func genStress(r *hx.Rand, millis int) scaseT {
-	k := scaseT{G: hx.Pick(r, []int{1, 2, 3, 4}), Millis: millis, SetLevel: r.Chance(1, 2), Seed: r.U64() >> 1}
+	k := scaseT{G: hx.Pick(r, []int{1, 2, 3, 4}), Millis: millis, SetLevel: r.Chance(1, 2), Batch: r.Chance(1, 3), Seed: r.U64() >> 1}
 	for g := 0; g < k.G; g++ {
 		k.Derived = append(k.Derived, r.Chance(1, 3))
 	}
